@@ -13,7 +13,12 @@ def empty():
     return I.runtime().EmptyCell()
 
 
+NUMTEXTS = ['007', '00', '1.50', '12.0', '3.', ' 42', '+5', '1e3', '1_0', 'NaN', '2024', '0.5', '-0', 'TRUE', '1/2']     # texts that LOOK like numbers: still texts
+
+
 def rtext(rng, maxlen=5, alpha=ALPHA):
+    if alpha is ALPHA and maxlen == 5 and rng.random() < 0.2:
+        return rng.choice(NUMTEXTS)
     return ''.join(rng.choice(alpha) for _ in range(rng.randint(0, maxlen)))
 
 
